@@ -372,3 +372,75 @@ Proof.
   destruct Hkind as [Hkd|[Hkd|[i [m Hkd]]]]; rewrite Hkd; destruct (ch (cont_at s k)); cbn [settle push_tasks set_state add_log set_cont cores stack plog core_at];
     try (split; [|split]; try reflexivity); try (rewrite nth_setn_same by exact Hd; reflexivity); apply Hcore.
 Qed.
+
+(* ---------- then() on a promise that is already settled runs the right callback at once, with its value ---------- *)
+Local Transparent big_fuel.
+Lemma big_fuel_two : exists f, big_fuel = S (S f).
+Proof. exists 3998. vm_compute. reflexivity. Qed.
+Local Opaque big_fuel.
+
+Lemma core_at_new_core s p : p < length (cores s) -> core_at (new_core s) p = core_at s p.
+Proof. intros H. unfold core_at, new_core. cbn [cores]. apply app_nth1. exact H. Qed.
+
+Lemma settled_in_range s p : cs (core_at s p) <> Pending -> p < length (cores s).
+Proof.
+  intros H. destruct (Nat.lt_ge_cases p (length (cores s))) as [Hl|Hg]; [exact Hl|].
+  exfalso. apply H. unfold core_at. rewrite nth_overflow by exact Hg. reflexivity.
+Qed.
+
+Lemma core_at_log_cont x k c ev d : core_at (add_log (set_cont x k c) ev) d = core_at x d.
+Proof. reflexivity. Qed.
+
+Theorem then_on_settled s src vr h :
+  stack s = [] ->
+  plog (exec s (PThen src vr h)) =
+    plog s ++ match cs (core_at s src) with
+              | Fulfilled v => [ERes (length (conts s)) v]
+              | Rejected e => [ERej (length (conts s)) e]
+              | Pending => []
+              end.
+Proof.
+  intros Hst. cbn [exec]. unfold attach.
+  assert (Hfin : forall x a b, plog (attach_finish x a b) = plog x) by reflexivity. rewrite Hfin.
+  set (k := length (conts s)).
+  set (dst := length (cores s)).
+  set (c := mkC (if vr then KVal dst else KVoid dst) h 0 0).
+  destruct (cs (core_at s src)) as [|v|e] eqn:Ecs.
+  - (* pending: nothing runs *)
+    unfold attach_start. cbn [conts new_core cores datas stack plog].
+    assert (Hc : cs (core_at (mkPst (cores s ++ [mkCore Pending []]) (conts s ++ [c]) (datas s) (stack s) (plog s)) src) = Pending).
+    { unfold core_at. cbn [cores]. destruct (Nat.lt_ge_cases src (length (cores s))) as [Hl|Hg].
+      - rewrite app_nth1 by exact Hl. exact Ecs.
+      - rewrite app_nth2 by exact Hg. destruct (src - length (cores s)) as [|[|n]]; reflexivity. }
+    rewrite Hc. destruct big_fuel_two as [f Hf]. rewrite Hf. cbn [drain stack]. rewrite Hst. cbn [plog]. rewrite app_nil_r. reflexivity.
+  - assert (Hr : src < length (cores s)) by (apply settled_in_range; rewrite Ecs; discriminate).
+    unfold attach_start. cbn [conts new_core cores datas stack plog].
+    assert (Hc : cs (core_at (mkPst (cores s ++ [mkCore Pending []]) (conts s ++ [c]) (datas s) (stack s) (plog s)) src) = Fulfilled v).
+    { unfold core_at. cbn [cores]. rewrite app_nth1 by exact Hr. exact Ecs. }
+    rewrite Hc. destruct big_fuel_two as [f Hf]. rewrite Hf. unfold push_tasks. cbn [drain stack cores conts datas plog]. rewrite Hst. cbn [app].
+    cbn [run_task conts]. rewrite app_length. cbn [length]. fold k.
+    destruct (Nat.ltb_spec k (k + 1)) as [_|Hbad]; [|lia]. cbn [negb].
+    assert (Hk : cont_at (mkPst (cores s ++ [mkCore Pending []]) (conts s ++ [c]) (datas s) [] (plog s)) k = c).
+    { unfold cont_at. cbn [conts]. unfold k. rewrite app_nth2 by lia. rewrite Nat.sub_diag. reflexivity. }
+    rewrite Hk. cbn [rc Nat.leb ck c]. unfold c at 1. cbn [ck].
+    destruct vr; cbn [settle push_tasks set_state add_log set_cont cores conts datas stack plog core_at].
+    + (* value-returning: the derived promise is new, nobody is attached to it *)
+      assert (Hd : creqs (nth dst (cores s ++ [mkCore Pending []]) (mkCore Pending [])) = []).
+      { unfold dst. rewrite app_nth2 by lia. rewrite Nat.sub_diag. reflexivity. }
+      rewrite core_at_log_cont. unfold core_at at 1. cbn [cores]. rewrite Hd. cbn [map app drain stack plog]. reflexivity.
+    + cbn [drain stack]. reflexivity.
+  - assert (Hr : src < length (cores s)) by (apply settled_in_range; rewrite Ecs; discriminate).
+    unfold attach_start. cbn [conts new_core cores datas stack plog].
+    assert (Hc : cs (core_at (mkPst (cores s ++ [mkCore Pending []]) (conts s ++ [c]) (datas s) (stack s) (plog s)) src) = Rejected e).
+    { unfold core_at. cbn [cores]. rewrite app_nth1 by exact Hr. exact Ecs. }
+    rewrite Hc. destruct big_fuel_two as [f Hf]. rewrite Hf. unfold push_tasks. cbn [drain stack cores conts datas plog]. rewrite Hst. cbn [app].
+    cbn [run_task conts]. rewrite app_length. cbn [length]. fold k.
+    destruct (Nat.ltb_spec k (k + 1)) as [_|Hbad]; [|lia]. cbn [negb].
+    assert (Hk : cont_at (mkPst (cores s ++ [mkCore Pending []]) (conts s ++ [c]) (datas s) [] (plog s)) k = c).
+    { unfold cont_at. cbn [conts]. unfold k. rewrite app_nth2 by lia. rewrite Nat.sub_diag. reflexivity. }
+    rewrite Hk. cbn [jc Nat.leb ck ch c]. unfold c at 1. cbn [ck].
+    assert (Hd : creqs (nth dst (cores s ++ [mkCore Pending []]) (mkCore Pending [])) = []).
+    { unfold dst. rewrite app_nth2 by lia. rewrite Nat.sub_diag. reflexivity. }
+    destruct vr; destruct h; cbn [settle push_tasks set_state add_log set_cont cores conts datas stack plog ch c];
+      rewrite ?core_at_log_cont; unfold core_at; cbn [cores]; rewrite ?Hd; cbn [map app drain stack plog]; reflexivity.
+Qed.
